@@ -44,6 +44,14 @@ def conc_val(v, H, shared=None):
         return {}
     if v == "emptyset":
         return set()
+    if v == "fraction":
+        import fractions
+        return fractions.Fraction(1, 2)
+    if v == "decimal":
+        import decimal
+        return decimal.Decimal("1.50")
+    if v == "complex":
+        return 3 + 4j
     if v == "reprtuple":
         return ReprTuple((1, 2))
     if v == "reprstr":
@@ -76,7 +84,9 @@ def conc_val(v, H, shared=None):
     raise ValueError(v)
 
 
-def run_program(tagnames, events, H):
+def run_program(tagnames, events, H, realbase=False):
+    """realbase: the outermost hook is the interpreter's own sys.__displayhook__ (which prints the repr of what it is
+    handed and binds builtins._) instead of a collecting function; what it received is read back from stdout."""
     tags = {t: H.Tag("div", id=t) for t in tagnames}
     shared = H.HTMLDependency("shared", "1.0")
     base_log = []
@@ -90,6 +100,12 @@ def run_program(tagnames, events, H):
         if value is not None:
             base_log.append(label(value))
 
+    if realbase:
+        import builtins
+        import io
+        import re as _re
+        base = sys.__displayhook__
+        capture = io.StringIO()
     hook_of = {id(base): "base"}
     keep = [base]
 
@@ -118,6 +134,9 @@ def run_program(tagnames, events, H):
     def observe(i, exc, raised=False):
         h = sys.displayhook
         e = events[i]
+        if realbase:
+            # a handed tag is printed as its markup, starting in column 0 (nested tags are indented inside it)
+            base_log[:] = ["t:" + m for m in _re.findall(r'^<div id="(t\d+)"', capture.getvalue(), _re.M)]
         rec.append({"act": e["act"], "t": e["t"], "g": e["g"], "v": e["v"],
                     "hook": hook_of.get(id(h), "?"), "exc": exc, "kids": proj_kids(), "base": list(base_log),
                     "raised": raised})
@@ -193,7 +212,11 @@ def run_program(tagnames, events, H):
         return p
 
     saved = sys.displayhook
+    saved_out = sys.stdout
     sys.displayhook = base
+    if realbase:
+        sys.stdout = capture
+        saved_underscore = getattr(builtins, "_", None)
     final = "?"
     try:
         try:
@@ -203,6 +226,9 @@ def run_program(tagnames, events, H):
         final = hook_of.get(id(sys.displayhook), "?")
     finally:
         sys.displayhook = saved
+        sys.stdout = saved_out
+        if realbase:
+            builtins._ = saved_underscore
     return {"tags": list(tagnames), "events": rec, "final": final}
 
 
@@ -214,8 +240,9 @@ def well_formed_random(rnd, tagnames, maxevents, maxdepth):
     exc = False
     n = 0
     vals = ["str", "num", "zero", "empty", "none", "dots", "repr", "tag", "tfy", "list", "bad", "badlist",
-            "dep", "dep", "depeq", "false", "zerof", "emptyhtml", "emptydict", "emptyset", "reprtuple", "reprstr"]
-    BAD = ("bad", "badlist", "emptydict", "emptyset")
+            "dep", "dep", "depeq", "false", "zerof", "emptyhtml", "emptydict", "emptyset", "reprtuple", "reprstr",
+            "fraction", "decimal", "complex"]
+    BAD = ("bad", "badlist", "emptydict", "emptyset", "fraction", "decimal", "complex")
     while n < maxevents or stack:
         if exc or n >= maxevents:
             if not stack:
@@ -306,7 +333,7 @@ class C17(Prop):
         return mx >= 2 or crossed
 
     def gens_from_export(self, lines, tier, rnd):
-        return [{"kind": "prog", "tags": ["t1", "t2", "t3"], "events": ln["events"]} for ln in lines]
+        return [{"kind": "prog", "tags": ["t1", "t2", "t3"], "events": ln["events"], "realbase": i % 5 == 0} for i, ln in enumerate(lines)]
 
     def gens_random(self, tier, rnd):
         gens = []
@@ -314,12 +341,12 @@ class C17(Prop):
             ntags = rnd.choice([2, 4, 8, 12])
             names = [f"t{i + 1}" for i in range(ntags)]
             ev = well_formed_random(rnd, names, rnd.choice([6, 15, 60]), rnd.choice([2, 4, 8]))
-            gens.append({"kind": "prog", "tags": names, "events": ev})
+            gens.append({"kind": "prog", "tags": names, "events": ev, "realbase": rnd.random() < 0.25})
         return gens
 
     def execute(self, g):
         import htmltools as H
-        rec = run_program(g["tags"], g["events"], H)
+        rec = run_program(g["tags"], g["events"], H, realbase=g.get("realbase", False))
         if len(rec["events"]) != len(g["events"]):
             # the interpreter could not align the run with the program text: not a verdict
             return {"tags": g["tags"], "events": rec["events"], "final": rec["final"], "gen": g, "misaligned": True}
